@@ -119,3 +119,75 @@ class GramBounds:
             M.true("gram/eri-diagonal-nonnegative", float(np.min(diag)) >= -1e-6 * float(np.max(np.abs(diag))), "")
             bound = np.sqrt(np.abs(diag))[:, :, None, None] * np.sqrt(np.abs(diag))[None, None, :, :]
             M.true("gram/eri-schwarz", bool(np.all(np.abs(E) <= bound * (1 + 1e-6) + 1e-6 * float(np.max(np.abs(diag))))), "")
+
+
+class ERIIllConditioned:
+    """BOUNDED (float): the fixed list of ill-conditioned quartets of the property statement - a tight pair of
+    core s functions (exponents up to 1e5) against a pair of diffuse d / f functions, in both orders of the two
+    pairs.  The block returned by the public block routine is compared with the specification (Coulomb integrals
+    defined by differentiation of the Boys base integral, evaluated at 50 digits): error at most 1e-6 of the
+    Schwarz scale sqrt((ab|ab)(cd|cd)) of each element."""
+
+    function = "gbasis.integrals.electron_repulsion.ElectronRepulsionIntegral.construct_array_contraction (ill-conditioned list)"
+    fp = True
+    fp_only = True
+    bounded = True
+    fp_nsamp = (1, 1)
+
+    LIST = [(t, l, e) for t in (1e5, 1e4, 1e3, 1e2) for (l, e) in ((3, 0.2), (3, 0.5), (2, 0.1), (2, 0.3))]
+
+    def fp_shapes(self, tier):
+        sel = self.LIST if tier == "thorough" else [q for q in self.LIST if q[0] in (1e5, 1e3)]
+        return [dict(tight=t, lket=l, eket=e, order=o) for t, l, e in sel for o in ("ss|XX", "XX|ss")]
+
+    shapes = fp_shapes
+
+    def run(self, shape, M):
+        if M.symbolic:
+            return
+        from specs import basisfn, coulomb
+        from .common import cart_components
+
+        m = M.mods
+        Sh = m["gbasis.contractions"].GeneralizedContractionShell
+        E = m["gbasis.integrals.electron_repulsion"].ElectronRepulsionIntegral
+        SF = M.SF
+        mp = SF.mp
+
+        def sh(l, e, c):
+            return Sh(l, np.array(c, dtype=float), np.array([1.0]), np.array([float(e)]), "cartesian")
+
+        A, B = [0.0, 0.0, 0.0], [0.3, -0.2, 0.5]
+        t, l, e = shape["tight"], shape["lket"], shape["eket"]
+        quad = [(0, t, A), (0, t * 0.3, A), (l, e, B), (l, e * 1.7, B)]
+        if shape["order"] == "XX|ss":
+            quad = quad[2:] + quad[:2]
+        shells = [sh(*q) for q in quad]
+        x = E.construct_array_contraction(*shells)
+        for i, s in enumerate(shells):
+            shp = [1] * 8
+            shp[2 * i], shp[2 * i + 1] = s.norm_cont.shape
+            x = x * s.norm_cont.reshape(shp)
+        ex = [mp.mpf(float(s.exps[0])) for s in shells]
+        cs = [[mp.mpf(float(v)) for v in s.coord] for s in shells]
+        f = coulomb.two_electron(SF, *ex, *cs)
+        fab = coulomb.two_electron(SF, ex[0], ex[1], ex[0], ex[1], cs[0], cs[1], cs[0], cs[1])
+        fcd = coulomb.two_electron(SF, ex[2], ex[3], ex[2], ex[3], cs[2], cs[3], cs[2], cs[3])
+        comps = [cart_components(q[0]) for q in quad]
+        norms = [{c: basisfn.prim_norm(SF, ex[i], c) for c in comps[i]} for i in range(4)]
+        worst = (mp.mpf(0), None)
+        import itertools
+
+        for idx in itertools.product(*[range(len(c)) for c in comps]):
+            cc = [comps[i][idx[i]] for i in range(4)]
+            nn = norms[0][cc[0]] * norms[1][cc[1]] * norms[2][cc[2]] * norms[3][cc[3]]
+            ref = f(*cc) * nn
+            sw = SF.sqrt(abs(fab(cc[0], cc[1], cc[0], cc[1]) * (norms[0][cc[0]] * norms[1][cc[1]]) ** 2
+                             * fcd(cc[2], cc[3], cc[2], cc[3]) * (norms[2][cc[2]] * norms[3][cc[3]]) ** 2))
+            got = mp.mpf(float(x[0, idx[0], 0, idx[1], 0, idx[2], 0, idx[3]]))
+            rel = abs(got - ref) / (sw + mp.mpf("1e-280"))
+            if rel > worst[0] or got != got:
+                worst = (rel if got == got else mp.mpf("inf"), idx)
+        lab = "s(%.0e)s" % t, "%s(%.1f)%s" % ("spdf"[l], e, "spdf"[l])
+        name = "eri_illcond/%s/within-1e-6-of-Schwarz" % ("%s|%s" % lab if shape["order"] == "ss|XX" else "%s|%s" % lab[::-1])
+        M.true(name, worst[0] <= mp.mpf("1e-6"), "worst |block - exact| / Schwarz = %s at component index %s" % (mp.nstr(worst[0], 4), worst[1]))
